@@ -9,6 +9,7 @@ HEADLINE = ["steps", "substeps", "trigger_demands", "trigger_while_dest_inflight
 def plan(tier, seed, scale):
     return {"n_cases": sizes(tier, scale, 2400, 60000), "variants": 4,
             "profiles": ["events", "core", "events_flat", "chain", "deep", "par", "big", "flat"],
+            "remote_cases": int((32 if tier == "quick" else 1600) * scale),
             "timeout_s": 600 if tier == "quick" else 7200}
 
 
